@@ -611,6 +611,22 @@ def decode_varint(buffer: bytes, pos: int) -> Tuple[int, int]:
     return value, pos + len(raw)
 
 
+def _wire_type_fits(wire_type: int, proto_type: str, repeated: bool) -> bool:
+    """Whether a field of the given type can arrive with the given wire type."""
+    if proto_type in WIRE_VARINT_TYPES:
+        expected = WIRE_VARINT
+    elif proto_type in WIRE_FIXED_32_TYPES:
+        expected = WIRE_FIXED_32
+    elif proto_type in WIRE_FIXED_64_TYPES:
+        expected = WIRE_FIXED_64
+    else:
+        expected = WIRE_LEN_DELIM
+    if wire_type == expected:
+        return True
+    # Repeated scalars may also arrive packed.
+    return repeated and wire_type == WIRE_LEN_DELIM and proto_type in PACKED_TYPES
+
+
 @dataclasses.dataclass(frozen=True)
 class ParsedField:
     number: int
@@ -1338,6 +1354,14 @@ class Message(ABC):
         read = 0
         for parsed in load_fields(stream):
             field_name = proto_meta.field_name_by_number.get(parsed.number)
+            if field_name and not _wire_type_fits(
+                parsed.wire_type,
+                proto_meta.meta_by_field_name[field_name].proto_type,
+                proto_meta.default_gen[field_name] is list,
+            ):
+                # A known field number with a wire type that does not fit the
+                # declared type is kept as an unknown field.
+                field_name = None
             if not field_name:
                 self._unknown_fields += parsed.raw
                 if size is not None:
